@@ -76,7 +76,21 @@ func RandTree(r *run.Rng, t geom.GeometryType, ct geom.CoordinatesType, depth in
 			l.Coords = append(l.Coords, o.tuple(r, ct)...)
 		}
 		if k >= 3 && r.Bool() { // close it
+			if r.Chance(1, 4) { // a start point with zero ordinates, so that the closing copy can differ in zero signs
+				for j := 0; j < d; j++ {
+					if r.Bool() {
+						l.Coords[j] = []float64{0, math.Copysign(0, -1)}[r.Intn(2)]
+					}
+				}
+			}
 			l.Coords = append(l.Coords, l.Coords[:d]...)
+			if r.Chance(1, 3) { // closed under ==, but not bit for bit: zero ordinates of the closing point change sign
+				for j := len(l.Coords) - d; j < len(l.Coords); j++ {
+					if l.Coords[j] == 0 && r.Bool() {
+						l.Coords[j] = -l.Coords[j]
+					}
+				}
+			}
 		}
 		return l
 	}
